@@ -21,6 +21,8 @@ enum MemoryBackend<P: PathRefCounter> {
     file: std::fs::File,
     opts: Options,
     remove_on_drop: AtomicBool,
+    /// the mapping is copy-on-write (`map_copy`): what has been written exists only in the mapping
+    copy: bool,
   },
   #[cfg(all(feature = "memmap", not(target_family = "wasm")))]
   Mmap {
@@ -166,6 +168,28 @@ impl<R: RefCounter, PR: PathRefCounter, H: Header> Memory<R, PR, H> {
 
         *aligned_vec = new;
       }
+      MemoryBackend::MmapMut {
+        buf,
+        file,
+        opts,
+        copy: true,
+        ..
+      } => unsafe {
+        let current_file_size = file.metadata()?.len();
+        if current_file_size < opts.offset + size as u64 {
+          file.set_len(opts.offset + size as u64)?;
+        }
+
+        // a copy-on-write mapping stays copy-on-write, and what has been written so far
+        // exists only in the old mapping: carry it over.
+        let mut mmap = mmap_copy(opts.with_capacity(size as u32).to_mmap_options(), file)?;
+        let old: &memmap2::MmapMut = &**buf;
+        mmap[..allocated].copy_from_slice(&old[..allocated]);
+        let _ = Box::from_raw(*buf);
+        let ptr = mmap.as_mut_ptr();
+        *buf = Box::into_raw(Box::new(mmap));
+        self.ptr = ptr;
+      },
       MemoryBackend::MmapMut {
         buf, file, opts, ..
       } => unsafe {
@@ -315,7 +339,7 @@ impl<R: RefCounter, PR: PathRefCounter, H: Header> Memory<R, PR, H> {
     path: P,
     opts: Options,
   ) -> std::io::Result<Self> {
-    Self::map_mut_in(path.as_ref().to_path_buf(), opts, mmap_mut)
+    Self::map_mut_in(path.as_ref().to_path_buf(), opts, mmap_mut, false)
   }
 
   #[cfg(all(feature = "memmap", not(target_family = "wasm")))]
@@ -328,7 +352,7 @@ impl<R: RefCounter, PR: PathRefCounter, H: Header> Memory<R, PR, H> {
   {
     let path = path_builder().map_err(Either::Left)?;
 
-    Self::map_mut_in(path, opts, mmap_mut).map_err(Either::Right)
+    Self::map_mut_in(path, opts, mmap_mut, false).map_err(Either::Right)
   }
 
   #[cfg(all(feature = "memmap", not(target_family = "wasm")))]
@@ -336,7 +360,7 @@ impl<R: RefCounter, PR: PathRefCounter, H: Header> Memory<R, PR, H> {
     path: P,
     opts: Options,
   ) -> std::io::Result<Self> {
-    Self::map_mut_in(path.as_ref().to_path_buf(), opts, mmap_copy)
+    Self::map_mut_in(path.as_ref().to_path_buf(), opts, mmap_copy, true)
   }
 
   #[cfg(all(feature = "memmap", not(target_family = "wasm")))]
@@ -349,7 +373,7 @@ impl<R: RefCounter, PR: PathRefCounter, H: Header> Memory<R, PR, H> {
   {
     let path = path_builder().map_err(Either::Left)?;
 
-    Self::map_mut_in(path, opts, mmap_copy).map_err(Either::Right)
+    Self::map_mut_in(path, opts, mmap_copy, true).map_err(Either::Right)
   }
 
   #[cfg(all(feature = "memmap", not(target_family = "wasm")))]
@@ -357,6 +381,7 @@ impl<R: RefCounter, PR: PathRefCounter, H: Header> Memory<R, PR, H> {
     path: std::path::PathBuf,
     opts: Options,
     f: impl FnOnce(MmapOptions, &std::fs::File) -> std::io::Result<memmap2::MmapMut>,
+    copy: bool,
   ) -> std::io::Result<Self> {
     let (create_new, file) = opts.open(path.as_path())?;
     let file_size = file.metadata()?.len();
@@ -442,6 +467,7 @@ impl<R: RefCounter, PR: PathRefCounter, H: Header> Memory<R, PR, H> {
             buf: Box::into_raw(Box::new(mmap)),
             opts,
             file,
+            copy,
           },
           header_ptr: Either::Left(header_ptr_offset as _),
           ptr,
